@@ -30,6 +30,7 @@ from nix_manipulator.expressions.trivia import (
 from nix_manipulator.expressions.with_statement import WithStatement
 from nix_manipulator.mapping import tree_sitter_node_to_expression
 from nix_manipulator.resolution import (
+    function_parameter_scope,
     scopes_for_owner,
     set_resolution_context,
 )
@@ -222,6 +223,13 @@ class NixSourceCode:
                 # The nested level adds its own let layers / with environment.
                 return resolve_from_expr(expr, scopes=None)
 
+            def with_parameters(function, chain):
+                """The head of an un-applied lambda binds its parameters in the body."""
+                parameters = function_parameter_scope(function)
+                if parameters is None:
+                    return chain
+                return tuple(chain or ()) + (parameters,)
+
             def call_argument(call):
                 argument = call.argument
                 while isinstance(argument, Parenthesis):
@@ -253,7 +261,9 @@ class NixSourceCode:
                             "Top-level expression must be an attribute set"
                         )
                     try:
-                        return resolve_nested(output, scopes=scopes)
+                        return resolve_nested(
+                            output, scopes=with_parameters(target, scopes)
+                        )
                     except ValueError as exc:
                         raise ValueError(
                             "Top-level expression must be an attribute set"
